@@ -23,13 +23,19 @@ def gen_case(rnd):
     inners = sigs.U(('x', 'y', 'z'), 3, stars=sigs.STARS2[:1])
     o = rnd.choice(outers)
     i = rnd.choice(inners)
+    if rnd.random() < 0.3:
+        # up to four named parameters, drawn by kind profile
+        i = sigs.pick_stratified(rnd, ('w', 'x', 'y', 'z'), 4, sigs.STARS2[:1])
     if rnd.random() < 0.04:
         # a shared name: the declaration cannot be honoured (ValueError at retrieval)
         i = tuple((('a' if k == 0 and p[1] not in (VA, VK) else p[0]),) + p[1:] for k, p in enumerate(i))
     ova, ovk = sigs.star_name(o, VA), sigs.star_name(o, VK)
     ipos = [p[0] for p in i if p[1] in (PO, PK)]
     ivp, ivk = sigs.has_kind(i, VA), sigs.has_kind(i, VK)
-    n = rnd.randint(0, min(2, len(ipos) + (1 if ivp else 0)))
+    n = rnd.randint(0, min(3 if len(i) > 3 else 2, len(ipos) + (1 if ivp else 0)))
+    npo = sum(1 for p in i if p[1] == PO)
+    if npo >= 2 and rnd.random() < 0.5:
+        n = rnd.randint(1, npo - 1)     # boundary class: the count ends strictly inside the positional-only group
     if rnd.random() < 0.03:
         n = len(ipos) + 1        # possibly more than inner can take
     consumed = set(ipos[:n])
